@@ -205,7 +205,7 @@ func H_Faults() {
 	kit.FaultNth = vrt.Pick("fnth", 1, 2)
 	// a typed nil pointer result is a value as far as the statement goes; the
 	// fault kinds here are "returns an error" and "panics"
-	kit.FaultKind = []int{kit.FaultError, kit.FaultPanic}[vrt.Pick("fkind", 0, 1)]
+	kit.FaultKind = []int{kit.FaultError, kit.FaultPanic, kit.FaultWrapped}[vrt.Pick("fkind", 0, 2)]
 	fs := kit.FaultSlot
 
 	c := godi.NewCollection()
@@ -231,6 +231,9 @@ func H_Faults() {
 		switch kit.FaultKind {
 		case kit.FaultError:
 			vrt.Assert(errors.Is(err, kit.ErrBoom), "C15.cause_lost", where, "the constructor's own error is not reachable with errors.Is:", err)
+		case kit.FaultWrapped:
+			vrt.Assert(errors.Is(err, kit.ErrWrapped), "C15.cause_lost", where, "the error value the constructor returned (its own fmt.Errorf wrapper) is not reachable with errors.Is:", err)
+			vrt.Assert(errors.Is(err, kit.ErrBoom), "C15.cause_lost", where, "the root cause behind the constructor's wrapper is not reachable:", err)
 		case kit.FaultPanic:
 			var cp *godi.ConstructorPanicError
 			ok := errors.As(err, &cp)
